@@ -168,7 +168,7 @@ FViol(ev, r, ln) ==
         \* that was closed normally after one, without any exception, and is not a complete document also violates C02
         ELSE <<[l |-> ln, prop |-> IF ev.fault = "short" /\ \E x \in Range(ev.outs) : /\ x.final /\ ~x.old /\ x.o \in w.unrep
                                                                                       /\ (~x.stream_ok \/ (sc.target # "writer" /\ x.fin \notin {"eof", "empty"}))
-                                   THEN "C16,C02" ELSE "C16",
+                                   THEN "C16,C02,C01" ELSE "C16",       \* (C01: its records cannot be read back either)
                 ctx |-> Ctx(r), k |-> ev.k, kind |-> sc.kind, comp |-> sc.comp, target |-> sc.target,
                 fault |-> ev.fault, persistent |-> ev.persistent, phase |-> FaultPhase(ev.log), symptom |-> "unreported",
                 what |-> "rotate_output returned normally for an output that lost bytes and no API call had thrown", outputs |-> w.unrep]>>)
